@@ -126,6 +126,8 @@ def oracle(c, o):
         if o["r"][0] != "ok":
             return {"why": f"compute_ts raised {o['r']}", "cls": "irr:ts-raises"}
         e = exact_ts(c["m"])
+        if not math.isfinite(o["r"][1]):
+            return {"why": f"compute_ts={o['r'][1]} for the {len(c['m'])} x {len(c['m'][0])} matrix {c['m']}; the fraction of agreeing rater pairs is {e}", "cls": "irr:ts-value"}
         if abs(Fraction(o["r"][1]) - e) > Fraction(1, 10**10):
             return {"why": f"compute_ts={o['r'][1]} but the fraction of agreeing rater pairs is {e}", "cls": "irr:ts-value"}
         return None
